@@ -501,3 +501,25 @@ func (w *World) recvFieldStore(f *ssa.Function, st *ssa.Store, field string) boo
 	}
 	return w.exprOf(f, st.Addr).Name == field
 }
+
+// ownerIn: the key of `keys` whose function is f or has f in its private
+// closure (f is a helper that function was split into); "" if none. Exception
+// tables are keyed by the function they were reasoned for; a helper extracted
+// from it inherits the entry.
+func (w *World) ownerIn(f *ssa.Function, keys []string) string {
+	name := w.shortName(f)
+	for _, k := range keys {
+		if k == name {
+			return k
+		}
+	}
+	if f.Object() != nil && f.Object().Exported() {
+		return ""
+	}
+	for _, k := range keys {
+		if g := w.fn(k); g != nil && w.privateClosure(g)[f] {
+			return k
+		}
+	}
+	return ""
+}
